@@ -33,7 +33,7 @@ LIVE = "sensor_level >= 0"
 
 def site(rng, k):
     """A fold site: returns dict(kind, decl(var form), use_lit, use_var, var, mutate(value-change line), finding keys)."""
-    kinds = ["sleep", "brightness", "blink", "len-str", "len-list", "flash-pattern", "glyph", "rgb", "fade", "ultra-model", "servo-bounds", "range-count", "expr-fold", "const-arith", "param-shadow", "led-rebind", "swap-fold"]
+    kinds = ["sleep", "brightness", "blink", "len-str", "len-list", "flash-pattern", "glyph", "rgb", "fade", "ultra-model", "servo-bounds", "range-count", "expr-fold", "const-arith", "param-shadow", "led-rebind", "swap-fold", "aug-fold"]
     kind = kinds[k % len(kinds)]
     v = f"v{k}"
     if kind == "sleep":
@@ -64,8 +64,10 @@ def site(rng, k):
         a, b = rng.choice([(200, 10), (0, 255)])
         return dict(kind=kind, var=v, decl=f"{v} = {a}", lit=f"rgb.set_color({a}, 5, 6)", use=f"rgb.set_color({v}, 5, 6)", expr=f"rgb.set_color({a} - 0, 5, 6)", mut=f"{v} = {b}", mut_lit=f"rgb.set_color({b}, 5, 6)")
     if kind == "fade":
-        a, b = rng.choice([(20, 4), (10, 30)])
-        return dict(kind=kind, var=v, decl=f"{v} = {a}", lit=f"rgb.fade(100, 50, 0, duration_ms={a}, steps=5)", use=f"rgb.fade(100, 50, 0, duration_ms={v}, steps=5)", expr=f"rgb.fade(100, 50, 0, duration_ms={a} * 1, steps=10 // 2)", mut=f"{v} = {b}", mut_lit=f"rgb.fade(100, 50, 0, duration_ms={b}, steps=5)")
+        # (5|9|125 over 2|2|50 steps: the per-step delay is an exact .5 tie, the run-time formula and any baked value must agree)
+        a, b, st = rng.choice([(20, 4, 5), (10, 30, 5), (5, 9, 2), (9, 5, 2), (125, 25, 50)])
+        return dict(kind=kind, var=v, decl=f"{v} = {a}", lit=f"rgb.fade(100, 50, 0, duration_ms={a}, steps={st})", use=f"rgb.fade(100, 50, 0, duration_ms={v}, steps={st})",
+                    expr=f"rgb.fade(100, 50, 0, duration_ms={a} * 1, steps={st * 2} // 2)", mut=f"{v} = {b}", mut_lit=f"rgb.fade(100, 50, 0, duration_ms={b}, steps={st})")
     if kind == "ultra-model":
         return dict(kind=kind, var=v, decl=f'{v} = "hc_sr04"', lit='us = Ultrasonic(14, 15, sensor="hc_sr04")', use=f"us = Ultrasonic(14, 15, sensor={v})", expr='us = Ultrasonic(14, 15, sensor="HC" + "-SR04")', mut=None, mut_lit=None, after="mon.write(us.measure_distance())")
     if kind == "servo-bounds":
@@ -101,6 +103,15 @@ def site(rng, k):
         use = (f's{k} = "{a}"\nt{k} = "{b}"\ns{k}, t{k} = t{k}, s{k}\nmon.write(len(t{k}))\nsleep(len(s{k}) * 10 + 1)\n'
                f"x{k} = {x}\ny{k} = {y}\n{tup}\npa{k} = [x{k}, y{k}, 1]\nled.flash_pattern(pa{k}, 2)\nsleep(y{k} + 1)")
         lit = f'mon.write({len(a)})\nsleep({len(b) * 10 + 1})\nled.flash_pattern({[nx, ny, 1]}, 2)\nsleep({ny + 1})'
+        return dict(kind=kind, var=v, decl=f"{v} = 0", lit=lit, use=use, expr=use, mut=None, mut_lit=None, whole=True)
+    if kind == "aug-fold":
+        # after an augmented assignment the name holds a run-time value: everything derived from it is evaluated at run time
+        a, b = rng.choice([("ab", "c"), ("", "xyz"), ("q", "")])
+        n0, dn = rng.choice([(0, 1), (3, 4)])
+        use = (f's{k} = "{a}"\ns{k} += "{b}"\nmon.write(len(s{k}))\nt{k} = s{k} + "!"\nmon.write(len(t{k}))\nsleep(len(s{k}) * 10 + 1)\n'
+               f'n{k} = {n0}\nn{k} += {dn}\nm{k} = f"n={{n{k}}}"\nmon.write(len(m{k}))\nw{k} = 5 if n{k} == {n0 + dn} else 7\nsleep(w{k})')
+        la, ln = len(a + b), len(f"n={n0 + dn}")
+        lit = f'mon.write({la})\nmon.write({la + 1})\nsleep({la * 10 + 1})\nmon.write({ln})\nsleep(5)'
         return dict(kind=kind, var=v, decl=f"{v} = 0", lit=lit, use=use, expr=use, mut=None, mut_lit=None, whole=True)
     if kind == "const-arith":
         # name-free arithmetic in folded argument positions: the baked literal must be what Python computes
